@@ -174,6 +174,50 @@ def only_identifiers(expr, allowed, what):
         raise GenError(f"xml_parser.c: {what}: unexpected identifiers {sorted(ids - set(allowed))} in `{norm(expr)}`")
 
 
+LOCAL_FNS = ["s_load_node_decl", "aws_xml_parse", "s_advance_to_closing_tag", "aws_xml_node_as_body", "aws_xml_node_traverse",
+             "s_node_next_sibling", "aws_xml_node_get_name", "aws_xml_node_get_num_attributes", "aws_xml_node_get_attribute",
+             "s_double_quote_fn"]
+
+
+def _int_type(n):
+    try:
+        t = cfun.ctype_of(n)
+    except GenError:
+        return None
+    return t if isinstance(t, tuple) and len(t) == 2 and isinstance(t[0], int) else None
+
+
+def locals_table(repo, inc):
+    """declared integer width and storage class of every local variable, and every narrowing integer cast, in the
+    functions of xml_parser.c (clang AST): ([(fn, name, bits)], [(fn, name)] with static storage, [(fn, type)] casts)"""
+    src = os.path.join(repo, "source", "xml_parser.c")
+    ints, statics, casts = [], [], []
+    flags = inc + ["-D_POSIX_C_SOURCE=200809L", "-D_XOPEN_SOURCE=500"]
+    for fn in LOCAL_FNS:
+        nodes = cfun.dump_functions(f'#include "{src}"\n', fn, flags)
+        if fn not in nodes:
+            raise GenError(f"xml_parser.c: function {fn} not found")
+
+        def walk(n):
+            if not isinstance(n, dict):
+                return
+            k = n.get("kind")
+            if k == "VarDecl":
+                if n.get("storageClass") == "static":
+                    statics.append((fn, n.get("name", "?")))
+                t = _int_type(n)
+                if t:
+                    ints.append((fn, n.get("name", "?"), t[0]))
+            elif k == "CStyleCastExpr":
+                t = _int_type(n)
+                if t and t[0] < 64:
+                    casts.append((fn, n.get("type", {}).get("qualType", "?")))
+            for c in n.get("inner", []) or []:
+                walk(c)
+        walk(nodes[fn])
+    return ints, statics, casts
+
+
 def bytebuf_guards(repo, inc):
     """guards and index expressions of aws_byte_cursor_{left,right}_trim_pred, aws_byte_cursor_next_split,
     aws_byte_cursor_split_on_char_n and aws_byte_buf_append, as cfun-translated stubs (state reads lifted to parameters)"""
@@ -371,6 +415,7 @@ def generate(repo, cfg_inc):
         raise GenError("xml_parser.c: unexpected signature of the trim predicate")
 
     bb_text, bb_docs = bytebuf_guards(repo, inc)
+    loc_ints, loc_statics, loc_casts = locals_table(repo, inc)
 
     lim_op = m_lim.group(2)
     body_op = m_body.group(1)
@@ -425,6 +470,13 @@ def generate(repo, cfg_inc):
     a(stubs[2])
     a(f"/-- `{m_trim.group(1)}`, the predicate of `aws_byte_cursor_trim_pred(&att_val_pair[1], …)` -/")
     a(qt)
+    a("")
+    a("/-- every integer local of the functions of xml_parser.c: (function, name, declared width in bits) -/")
+    a("def intLocals : List (String × String × Nat) := [" + ", ".join(f'("{f}", "{n}", {b})' for f, n, b in loc_ints) + "]")
+    a("/-- function-local variables of xml_parser.c with static storage duration (shared between threads) -/")
+    a("def staticLocals : List (String × String) := [" + ", ".join(f'("{f}", "{n}")' for f, n in loc_statics) + "]")
+    a("/-- explicit casts to an integer type narrower than 64 bits in those functions: (function, target type) -/")
+    a("def narrowCasts : List (String × String) := [" + ", ".join(f'("{f}", "{t}")' for f, t in loc_casts) + "]")
     a("")
     a("/-! Guards of the byte-cursor helpers the parser calls (source/byte_buf.c), cut out as stubs -/")
     for doc, text in zip(bb_docs, bb_text):
